@@ -1,3 +1,96 @@
 // Kani harnesses mounted into crates/rip-kernel/src/lib.rs (cfg(kani) only).
 #![allow(unused_imports, dead_code)]
 use super::*;
+include!("/verif/harness/common.rs");
+
+fn stub_uuid_v4() -> Uuid {
+    Uuid::from_bytes([7u8; 16])
+}
+fn stub_now_ms() -> u64 {
+    kani::any()
+}
+// every registered hook set is abstracted by its outcome: at each hook point the engine may continue or abort
+fn stub_hook_run(_this: &HookEngine, _ctx: &HookContext) -> HookOutcome {
+    if kani::any() {
+        HookOutcome::Continue
+    } else {
+        HookOutcome::Abort { reason: String::new() }
+    }
+}
+fn stub_to_string<T: core::fmt::Display + ?Sized>(_t: &T) -> String {
+    String::new()
+}
+
+// C01 / C07 (kernel session state machine), one inductive step per stage (stage is the shape; start seq, clock
+// and the hook outcome are symbolic). Step facts asserted on the real `next_event`:
+//   (a) an emitted frame carries the pre-state seq and the counter advances by exactly one;
+//   (b) the machine is in stage Done afterwards  <=>  the emitted frame is session_ended;
+//   (c) from Done nothing is emitted and the state is unchanged;  (d) from any other stage a frame IS emitted;
+//   (e) the stage strictly advances (Start < Output < End < Done);  (f) session_started only from stage Start.
+// By induction over calls: seqs are contiguous from the start seq, exactly one session_ended is emitted, it is the
+// last frame, and the stream begins with session_started unless the first hook aborts. A multi-step harness was
+// measured not to finish (300 s): merged stages make the dropped frame's variant symbolic (drop glue of all variants).
+fn stage_rank(s: Stage) -> u8 {
+    match s {
+        Stage::Start => 0,
+        Stage::Output => 1,
+        Stage::End => 2,
+        Stage::Done => 3,
+    }
+}
+
+macro_rules! c01_kernel_step {
+    ($name:ident, $stage:expr) => {
+        #[kani::proof]
+        #[kani::unwind(8)]
+        #[kani::stub(std::fmt::format, stub_fmt_format)]
+        #[kani::stub(uuid::Uuid::new_v4, stub_uuid_v4)]
+        #[kani::stub(now_ms, stub_now_ms)]
+        #[kani::stub(HookEngine::run, stub_hook_run)]
+        #[kani::stub(alloc::string::ToString::to_string, stub_to_string)]
+        fn $name() {
+            let pre_seq: u64 = kani::any();
+            kani::assume(pre_seq < u64::MAX);
+            let pre_stage: Stage = $stage;
+            let mut s = Session {
+                id: String::new(),
+                input: String::new(),
+                seq: pre_seq,
+                stage: pre_stage,
+                hooks: Arc::new(HookEngine::new()),
+            };
+            let out = s.next_event();
+            let post_stage = s.stage;
+            match out {
+                Some(e) => {
+                    assert!(pre_stage != Stage::Done, "kernel session emitted a frame after it was done");
+                    assert!(e.seq == pre_seq, "kernel session frame does not carry the current seq");
+                    assert!(s.seq == pre_seq + 1, "kernel session seq did not advance by exactly one");
+                    let is_end = matches!(e.kind, EventKind::SessionEnded { .. });
+                    let is_start = matches!(e.kind, EventKind::SessionStarted { .. });
+                    assert!(is_end == (post_stage == Stage::Done), "session_ended emitted without finishing (or finished without session_ended)");
+                    assert!(!is_start || pre_stage == Stage::Start, "session_started emitted outside the start stage");
+                    assert!(stage_rank(post_stage) > stage_rank(pre_stage), "kernel session stage did not advance");
+                    core::mem::forget(e);
+                }
+                None => {
+                    assert!(pre_stage == Stage::Done, "kernel session emitted nothing before it was done");
+                    assert!(s.seq == pre_seq && post_stage == Stage::Done, "done session changed state");
+                }
+            }
+            kani::cover!(true, "step decided");
+            core::mem::forget(s);
+        }
+    };
+}
+c01_kernel_step!(c01_kernel_step_start, Stage::Start);
+c01_kernel_step!(c01_kernel_step_output, Stage::Output);
+c01_kernel_step!(c01_kernel_step_end, Stage::End);
+c01_kernel_step!(c01_kernel_step_done, Stage::Done);
+
+#[kani::proof]
+fn c00_setup_probe() {
+    let x: u8 = kani::any();
+    assert!(x as u16 <= 255);
+}
+
